@@ -75,6 +75,12 @@ def make_vals(rng, H, W, kind):
                 row.append(rng.choice([0, 5, 16777216, 16777217, 16777221, 33554433]))
             elif kind == "int":
                 row.append(rng.randrange(0, 10))
+            elif kind == "signed":
+                # small signed values: band sums cancel exactly (a == -b != 0) in some cells, differences in others
+                row.append("nan" if u < 0.08 else rng.choice([-3, -2, -1, 0, 1, 2]))
+            elif kind == "offset":
+                # large offset, small spread: one-pass variance / single-precision statistics cancel catastrophically
+                row.append(30000 + rng.randrange(-20, 21))
             elif u < 0.12:
                 row.append("nan")
             elif u < 0.15 and kind == "floatinf":
@@ -170,6 +176,9 @@ def build_jobs(ctx, rng):
         add("equal_interval", "equal_interval", {"k": rng.choice([2, 4])}, H, W, "float64", "float64u")
         add("equal_interval", "equal_interval", {"k": 3}, H, W, "int64", "bigint")
         add("hotspots", "hotspots", {"kernel": KERNELS["k3x3"]}, H, W, "float64", "float64u", (1, 1), kh=3, kw=3)
+        add("hotspots", "hotspots", {"kernel": KERNELS["k3x3"]}, H, W, rng.choice(["float32", "float64"]), "offset", (1, 1),
+            kh=3, kw=3)
+        add("equal_interval", "equal_interval", {"k": rng.choice([3, 5])}, H, W, "float32", "offset")
         for f in INDICES:
             p = {}
             if f == "evi":
@@ -178,6 +187,7 @@ def build_jobs(ctx, rng):
             if f == "savi":
                 p = {"soil_factor": rng.choice([1.0, 0.5, 0.0, -0.5])}
             add(f, f, p, H, W, rng.choice(["float32", "float64", "uint8", "uint16", "int32"]), "float", independent=True)
+            add(f, f, p, H, W, rng.choice(["float32", "float64"]), "signed", independent=True)
         # true_color: always one float raster with NaN cells (nan-aware global min/max) and one integer raster
         add("true_color", "true_color", {"nodata": 1}, H, W, rng.choice(["float64", "float32"]), "float",
             geo="unit", independent=True)
@@ -186,6 +196,9 @@ def build_jobs(ctx, rng):
         add("perlin", "perlin", {"freq": rng.choice([[1, 2], [3, 1], [2, 2]]), "seed": rng.randrange(100)}, H, W,
             "float32", "float")
         add("generate_terrain", "generate_terrain", {"seed": rng.randrange(100), "zfactor": rng.choice([4000, 100])},
+            H, W, "float32", "float", geo="unit")
+        # a negative (legal) zfactor flips every comparison made after scaling
+        add("generate_terrain", "generate_terrain", {"seed": rng.randrange(100), "zfactor": rng.choice([-250, -1])},
             H, W, "float32", "float", geo="unit")
         add("generate_terrain", "generate_terrain",
             {"seed": rng.randrange(100), "zfactor": 4000, "x_range": [0, 250], "y_range": [100, 300],
